@@ -290,7 +290,7 @@ func orderedLayout(r *rng, n int) Layout {
 	cur := []int{}
 	flush := func() {
 		if len(cur) > 0 {
-			l = append(l, LFile{Path: fmt.Sprintf("f%04d.yaml", len(l)), Docs: cur, List: r.chance(1, 5)})
+			l = append(l, LFile{Path: fmt.Sprintf("f%04d.yaml", len(l)), Docs: cur, List: r.chance(1, 3)})
 			cur = []int{}
 		}
 	}
